@@ -186,10 +186,10 @@ func TestC03Rapid(t *testing.T) {
 		}
 		nsFinish(g, nil)
 		if shape == "doc:wide" {
-			g.PosLits = []string{"1", "2", "9", "10", "11", "12", "13", "3"} // two-digit positions
+			g.PosLits = []string{"1", "2", "9", "10", "11", "12", "13", "3", "010", "011", "012", "09", "10.0"} // two-digit positions, also spelt with a leading zero or a fraction
 		}
 		if shape == "doc:broad" {
-			g.PosLits = []string{"1", "2", "15", "16", "17", "18", "31", "32", "33", "34"} // around 16 and 32
+			g.PosLits = []string{"1", "2", "15", "16", "17", "18", "31", "32", "33", "34", "016", "017", "020", "021", "032", "16.0"} // around 16 and 32
 		}
 		e := g.PosExpr(ctx)
 		l := &harness.Live{Property: "C03", Check: "C03/positional", Doc: doc, Ctx: ctx, AST: e, Expr: renderDrawn(rt, e), Flavour: flavourOf(rt)}
